@@ -18,6 +18,19 @@ void point(const void* addr, int kind);
 // after the operation executed: value seen / written (history hash, spin detection)
 void observed(const void* addr, int kind, uint64_t value, bool wrote);
 
+// ---- store-buffer (x86-TSO) mode, see vmc_rt.cpp ----
+bool tso_active();
+// a non-seq_cst store by the calling thread is about to be written through; old_bits = value in memory before it.
+// The runtime decides (explored choice, one unit of budget) whether the store stays invisible to other threads.
+void tso_store(const void* addr, uint64_t old_bits, uint64_t new_bits);
+// the value other threads currently see for addr when its newest store(s) are still buffered by another thread:
+// returns a pointer to the visible value (to be read, or updated by a store / read-modify-write ordered before the
+// buffered store), or nullptr when memory is what the caller sees. mem_bits = what memory holds now (an entry whose written value is no longer in memory is stale and dropped).
+uint64_t* tso_shadow(const void* addr, uint64_t mem_bits);
+// observed() for an access that was served from / applied to the shadow value
+void observed_shadow(const void* addr, int kind, uint64_t value, bool wrote);
+void tso_drain_self();                      // seq_cst store / fence: the caller's buffered stores become visible
+
 int spawn(std::function<void()> body);  // logical thread id
 void join(int tid);
 int self();          // logical thread id, -1 outside the scheduler
